@@ -1011,7 +1011,7 @@ def Module_icmp_expr(self, pred, ty, a, b):
         if pred == 'ne':
             return '((%s) != (%s))' % (a, b)
         o = {'ult': '<', 'ule': '<=', 'ugt': '>', 'uge': '>=', 'slt': '<', 'sle': '<=', 'sgt': '>', 'sge': '>='}[pred]
-        return '((uint8_t *)(%s) %s (uint8_t *)(%s))' % (a, o, b)
+        return '((uintptr_t)(%s) %s (uintptr_t)(%s))' % (a, o, b)
     bits = ty.bits
     if pred in ('eq', 'ne', 'ult', 'ule', 'ugt', 'uge'):
         o = {'eq': '==', 'ne': '!=', 'ult': '<', 'ule': '<=', 'ugt': '>', 'uge': '>='}[pred]
@@ -1968,7 +1968,11 @@ def translate(text, model_globals=()):
     fwd += ['struct %s;' % cn for (cn, ty) in m.lit_names.values()]
     fwd += ['struct %s;' % cn for (cn, ty) in m.arr_names.values()]
     parts = [PRELUDE, '\n'.join(fwd), '\n'.join(tout), '\n'.join(protos), '\n'.join(gdecl), '\n'.join(gdef)]
-    parts.append('void __ll2c_global_ctors(void)\n{\n' + '\n'.join('  %s();' % m.cname(c, 'g') for c in ctors) + '\n}\n')
+    std_streams = [n for n in m.global_order if n in ('_ZSt4cerr', '_ZSt4cout', '_ZSt4clog') and m.globals[n]['external']]
+    if std_streams:
+        parts.append('void vs_init_std_stream(void *);')
+    parts.append('void __ll2c_global_ctors(void)\n{\n' + '\n'.join('  vs_init_std_stream((void *)&%s);' % m.cname(c, 'g') for c in std_streams)
+                 + '\n' + '\n'.join('  %s();' % m.cname(c, 'g') for c in ctors) + '\n}\n')
     parts.append('\n'.join(func_text))
     meta = dict(
         defined=[n for n in m.func_order if m.funcs[n]['body'] is not None],
